@@ -128,6 +128,31 @@ func (c *CbText) UnmarshalText(b []byte) error {
 	return nil
 }
 
+// CbPtr has POINTER-receiver marshalers: whether they are called depends on
+// the addressability of the value, which the encoder tracks through a
+// per-program flag (encoding/json applies the same rule, so it stays a valid
+// reference).
+type CbPtr struct{ X int }
+
+func (c *CbPtr) MarshalJSON() ([]byte, error) {
+	cbHook(10)
+	return []byte(`"PM` + strconv.Itoa(c.X) + `"`), nil
+}
+
+func (c *CbPtr) UnmarshalJSON(b []byte) error {
+	cbHook(11)
+	s := string(b)
+	if strings.HasPrefix(s, `"PM`) {
+		n, err := strconv.Atoi(strings.Trim(s[3:], `"`))
+		c.X = n
+		return err
+	}
+	var t struct{ X int }
+	err := json.Unmarshal(b, &t)
+	c.X = t.X
+	return err
+}
+
 // static recursive type (exercises _OP_recurse and types above the inline depth)
 type RecT struct {
 	V    int               `json:"v"`
@@ -143,6 +168,7 @@ type RecT struct {
 var (
 	tCbJSON = reflect.TypeOf(CbJSON{})
 	tCbText = reflect.TypeOf(CbText{})
+	tCbPtr  = reflect.TypeOf(CbPtr{})
 	tRec    = reflect.TypeOf(RecT{})
 	tNumber = reflect.TypeOf(json.Number(""))
 	tRaw    = reflect.TypeOf(json.RawMessage(nil))
@@ -218,6 +244,11 @@ func (z *zoo) Type(depth int) reflect.Type {
 		return z.leaf()
 	case 11:
 		return tRec
+	case 12:
+		if z.cb {
+			return tCbPtr
+		}
+		return z.leaf()
 	default:
 		return z.leaf()
 	}
@@ -257,6 +288,9 @@ func (z *zoo) fill(v reflect.Value, depth int) {
 		return
 	case tCbText:
 		v.Set(reflect.ValueOf(CbText{K: g.d(50), V: safeStrs[g.d(len(safeStrs))]}))
+		return
+	case tCbPtr:
+		v.Set(reflect.ValueOf(CbPtr{X: g.d(1000)}))
 		return
 	case tNumber:
 		v.Set(reflect.ValueOf(json.Number(strconv.Itoa(g.d(100000) - 500))))
